@@ -28,6 +28,7 @@ enum {
 #define TW_O_EXCL 4u
 #define TW_O_TRUNC 8u
 #define TW_FDFLAG_APPEND 1u
+#define TW_FDFLAG_SYNC 16u       /* fdflags: append 1, dsync 2, nonblock 4, rsync 8, sync 16 (witx) */
 #define TW_RIGHT_FD_READ (1ull << 1)
 #define TW_RIGHT_FD_SEEK (1ull << 2)
 #define TW_RIGHT_FD_TELL (1ull << 5)
